@@ -253,3 +253,22 @@ Fixpoint remap_entries_from {A B} (R : remapper) (f : str -> A -> res B) (es : l
   end.
 Definition remap_entries {A B} (R : remapper) (f : str -> A -> res B) (es : list (str * A)) : res (list (str * B)) :=
   remap_entries_from R f es [].
+
+(* ------------------------------------------------------------------ *)
+(* 5. the content of the entries.  zip_impls.rs to_jar_entry_enum: a directory (zip: is_dir) is a directory; an
+   entry whose name ends in [zip_class_suffix] (read from the source by the translator) is a class and goes through
+   remap_class ([rc]: bytes -> the remapped class, or an error); every other entry goes through remap_other, which
+   returns its data.  An entry of the input is (is_dir, data). *)
+Inductive content (C : Type) := KDir | KClass (c : C) | KOther (d : list N).
+Arguments KDir {C}. Arguments KClass {C} c. Arguments KOther {C} d.
+
+Definition remap_content {C} (rc : list N -> res C) (name : str) (e : bool * list N) : res (content C) :=
+  if fst e then Ok KDir
+  else match strip_suffix zip_class_suffix name with
+       | Some _ => match rc (snd e) with Ok c => Ok (KClass c) | Err => Err end
+       | None => Ok (KOther (snd e))
+       end.
+
+(* `remap`: names and contents *)
+Definition remap_jar {C} (R : remapper) (rc : list N -> res C) (es : list (str * (bool * list N))) : res (list (str * content C)) :=
+  remap_entries R (remap_content rc) es.
